@@ -99,6 +99,8 @@ static void handler(void *cookie, int status, const struct rusage *ru)
 	if (c->ndelivered < c->nreaped)
 		sx_assert(c->reaped[c->ndelivered] == status, "C11.status-out-of-order-or-altered");
 	c->ndelivered++;
+	if (c->nreaped - c->ndelivered >= 1)
+		sx_cover("wait.batch-of-several-statuses");	/* more statuses of this pid are queued behind this one */
 	if (WIFEXITED(status) || WIFSIGNALED(status)) {
 		c->term_delivered = 1;
 		sx_cover("wait.termination-delivered");
@@ -111,10 +113,23 @@ static void handler(void *cookie, int status, const struct rusage *ru)
 		handler_ops--;
 		iv_wait_interest_kill(c->wi, SIGTERM);
 	}
-	if (P_unreg && handler_ops > 0 && sx_choose(2)) {
-		handler_ops--;
-		sx_cover("wait.unregister-in-handler");
-		do_unregister(c);
+	if (P_unreg && handler_ops > 0) {
+		/* unregister this interest or another one of this thread, from inside the handler */
+		struct crec *cand[MAXC + 1];
+		int n = 0, i, a;
+
+		for (i = 0; i < nC; i++)
+			if (C[i].registered && C[i].owner == sx_tid())
+				cand[n++] = &C[i];
+		a = sx_choose(n + 1);
+		if (a > 0) {
+			handler_ops--;
+			if (cand[a - 1] == c)
+				sx_cover("wait.unregister-in-handler");
+			else
+				sx_cover("wait.unregister-other-in-handler");
+			do_unregister(cand[a - 1]);
+		}
 	}
 }
 
@@ -213,6 +228,42 @@ static void *loop2_main(void *arg)
 	return NULL;
 }
 
+/* second loop thread that owns all the watched interests; the main thread (whose SIGCHLD interest is the
+ * one that gets woken) does the reaping, so several statuses can queue up on one interest */
+static int n_for_loop3;
+
+/* the owner gives up an interest on its own initiative, at a moment unrelated to the child's fate */
+static void spont_fn(void *c)
+{
+	struct crec *v = c;
+
+	if (v->registered) {
+		sx_cover("wait.spontaneous-unregister");
+		do_unregister(v);
+	}
+}
+
+static void *loop3_main(void *arg)
+{
+	static struct iv_timer spont;
+	int i;
+
+	iv_init();
+	for (i = 0; i < n_for_loop3; i++)
+		do_register(&C[i], 0);
+	if (sx_opt("spont", -1) >= 0) {
+		IV_TIMER_INIT(&spont);
+		spont.cookie = &C[sx_opt("spont", -1)];
+		spont.handler = spont_fn;
+		spont.expires.tv_sec = 0;
+		spont.expires.tv_nsec = 0;
+		iv_timer_register(&spont);
+	}
+	iv_main();
+	iv_deinit();
+	return NULL;
+}
+
 void sx_on_quiescent(void)
 {
 	int i, j;
@@ -265,6 +316,20 @@ void sx_main(void)
 	if (sx_opt("hb", 0))
 		sx_hb_enable();
 	iv_init();
+	if (sx_opt("twoloops", 0) == 2) {
+		pthread_t t3;
+
+		for (i = 0; i < nC; i++) {
+			C[i].id = i;
+			C[i].pid = p_new_child();
+			C[i].alive = 1;
+		}
+		/* the last child is watched by this thread, the others by the second loop */
+		n_for_loop3 = nC - 1;
+		do_register(&C[nC - 1], 0);
+		pthread_create(&t3, NULL, loop3_main, NULL);
+		sx_cover("wait.reaper-is-another-thread");
+	} else
 	for (i = 0; i < nC; i++) {
 		C[i].id = i;
 		if (i < nC - nstr) {
@@ -281,7 +346,7 @@ void sx_main(void)
 			C[i].alive = 1;
 		}
 	}
-	if (sx_opt("twoloops", 0)) {
+	if (sx_opt("twoloops", 0) == 1) {
 		/* a second loop thread spawns a child that exits at once; this thread holds another interest */
 		pthread_t t2;
 		P_quickexit = 1;
@@ -294,7 +359,7 @@ void sx_main(void)
 	pthread_create(&th, NULL, world_main, NULL);
 	iv_main();
 	for (i = 0; i < nC; i++)
-		sx_assert(!C[i].registered, "C07.iv_main-returned-with-wait-interest");
+		sx_assert(!(C[i].registered && C[i].owner == sx_tid()), "C07.iv_main-returned-with-wait-interest");
 	sx_cover("wait.loop-returned-after-last-unregister");
 	sx_end();
 }
